@@ -400,6 +400,14 @@ class Resolver:
         fn.nlocals = ctx.next_slot
         self.ctx = ctx.parent
 
+    def receiver_name(self):
+        """the receiver of `super.m` is the receiver of the method the expression belongs to: slot 0 of the innermost
+        enclosing function that is not a plain function or lambda (captured like any other variable when nested)"""
+        c = self.ctx
+        while c is not None and c.fn.kind == "function":
+            c = c.parent
+        return SLOT0[(c or self.ctx).fn.kind]
+
     def at_global_scope(self):
         return self.ctx.fn.kind == "script" and len(self.ctx.scopes) == 1
 
@@ -600,10 +608,10 @@ class Resolver:
         elif k == "lambda":
             self.function(n.a)
         elif k == "superget":
-            recv = self.resolve_name(SLOT0[self.ctx.fn.kind], n.line)
+            recv = self.resolve_name(self.receiver_name(), n.line)
             n.d = (recv, self.resolve_name("super", n.line))
         elif k == "superinvoke":
-            recv = self.resolve_name(SLOT0[self.ctx.fn.kind], n.line)
+            recv = self.resolve_name(self.receiver_name(), n.line)
             for a in n.b:
                 self.expr(a)
             n.d = (recv, self.resolve_name("super", n.line))
